@@ -78,7 +78,7 @@ func init() {
 		Rule:        "crash scenario: a sequential workload (create, update, delete, Init with 0-3 seeds, re-Init, RebuildIndexes, Flush, dirty restart) on badgerstore + QueryStore over real BadgerDB with prefix empty, simple or dotted; a crash image (copy of the database directory taken while every goroutine of the bubble is durably blocked) is taken at occurrences of the instrumented points before/inside/after each mutation commit, inside Init, at the start and after the commit of each index task and after RebuildIndexes' drop (quick tier: a seeded sample of occurrences; thorough: every occurrence), plus a torn variant in which an unacknowledged suffix of the value log is zeroed; dirty restarts continue the run on an image.",
 		Oracle:      "each image is reopened with a fresh BadgerDB: every id holds the acked model's value, the id with a mutation in flight holds the old or the new value, an interrupted Init is all-or-none with a consistent marker; then the restart procedure (Init with the same seeds, RebuildIndexes) runs on the image: seeds appear exactly when the marker was absent and the id is missing, never again after a completed Init, and every generated index query agrees with the reference scan of the stored values.",
 		Scen:        []ScenBudget{{"crash", 600, 20000}},
-		Assumptions: []string{"BadgerDB is opened with its default SyncWrites=true; loss of acknowledged but unsynced data and kernel-level disk errors (EIO, ENOSPC) are not simulated (no VFS seam in BadgerDB v1.6.2)", "a copy of the directory while all goroutines are blocked equals the image a process kill leaves; power loss is modelled by zeroing a suffix of the value log beyond the last acknowledged mutation"},
+		Assumptions: []string{"BadgerDB is opened with its default SyncWrites=true; loss of acknowledged but unsynced data and disk errors below the transaction level (short or torn writes inside a commit) are not simulated (no VFS seam in BadgerDB v1.6.2); a disk that refuses a whole commit is (DB.Update of the scratch badger copy)", "a copy of the directory while all goroutines are blocked equals the image a process kill leaves; power loss is modelled by zeroing a suffix of the value log beyond the last acknowledged mutation"},
 	})
 	addCheck(&CheckSpec{
 		Property: "C15", Level: "exploration", OwnsPanics: true,
